@@ -629,10 +629,10 @@ func TestVerifC18(t *testing.T) {
 		// ---- nodes of the case
 		nn := r.Range(2, 6)
 		if r.Chance(1, 15) {
-			nn = r.Pick([]int64{1, 7, 8})
+			nn = int(r.Pick([]int64{1, 7, 8}))
 		}
 		var all []*c18Node
-		for i := 0; i < int(nn); i++ {
+		for i := 0; i < nn; i++ {
 			nd := &c18Node{id: i, inPool: !c.useSelector || !r.Chance(1, 4), unsched: r.Chance(1, 10), noFit: r.Chance(1, 10),
 				rawAnno: r.Chance(1, 6), tendency: r.Intn(3)}
 			if c.dev {
